@@ -902,9 +902,7 @@ def sink_cases(r, n, marker_prefix="mk"):
             # double-width characters after the payload, one to eight of them (every balance of bytes gained by
             # escaping against filler bytes dropped)
             pay = pay + "".join(r.choice(gen.WIDE[:12]) for _ in range(r.randint(1, 8)))
-        elif i % 3 == 2 and r.random() < 0.3:
-            # the payload where CSS expects a resource
-            pay = "fill: url(" + pay + ")"
+
         chan = ["plain", "quoted", "tag", "legend_name", "legend_decl", "quoted_tag"][i % 6]
         art = r.choice(["", gen.box(r.randint(2, 8), 1), gen.random_grid(r, 8, 2, "-|+/\\*o. ", 0.5), "o-->"])
         exp_t, exp_s = [], []
@@ -929,6 +927,8 @@ def sink_cases(r, n, marker_prefix="mk"):
             t = art + "\n# Legend:\n" + pay + " = {fill:red}\n"
         else:
             p = pay.replace("{", "(").replace("}", ")")
+            if r.random() < 0.3:
+                p = "fill: url(" + p + ")"          # the payload where CSS expects a resource
             name = "a%s" % marker[2:6]
             entries = [(name, p)]
             if r.random() < 0.6:
